@@ -108,6 +108,14 @@ pub const FOCUS_COORD: Granularity = Granularity::Focus(
     ],
 );
 
+/// The coordinators' hand-shake reduced to its three publication points (finality published,
+/// commit published, validation verdict published) plus yields, parks and blocking: few enough
+/// decisions for six deviations on a two-transaction block.
+pub const FOCUS_COORD_MIN: Granularity = Granularity::Focus(
+    "focus-coord-min",
+    &[grevm_verif_rt::pt::FINALITY_PUBLISH, grevm_verif_rt::pt::COMMIT_PUBLISH, grevm_verif_rt::pt::VALIDATE_VERDICT],
+);
+
 pub fn jobs(prop: &str, tier: Tier) -> Vec<Job> {
     match prop {
         "C01" => c01::jobs(tier),
